@@ -128,6 +128,7 @@ def random_stream_trace(job):
     nsent = 0
     unconsumed = 0          # delivered and not yet returned (generator bookkeeping only)
     tc_pending = False
+    wc_set = False
     nwrites = 0
     queued_hint = 0
     c = rcs or 64
@@ -171,7 +172,7 @@ def random_stream_trace(job):
                     acts += ["deliver"] * (8 if reading or unconsumed < 300 else 1)
             if mode in ("write", "close") and not tc_pending:
                 acts += ["write"] * (5 if mode == "write" else 2)
-                if not closed:
+                if not closed and not wc_set:
                     acts += ["grant"] * (5 if mode == "write" else 2)
                     if not connecting and rng.random() < 0.04:
                         acts += [rng.choice(["wreset", "werror"])]
@@ -208,6 +209,8 @@ def random_stream_trace(job):
                 p = record(a, [])
                 if a in ("eof", "reset", "terror") and p["st"] == "open":
                     tc_pending = True
+                if a in ("wreset", "werror"):
+                    wc_set = True
             if p["rd"][0] == "ok" and ev[-1]["a"] in ("read", "deliver", "eof", "reset", "terror", "close", "closeexc",
                                                       "write", "wreset", "werror", "connfail"):
                 # consumed bytes are those of a read that completed in this step
